@@ -28,6 +28,7 @@ import (
 	"log"
 	"net/http/httptest"
 	"os"
+	"reflect"
 	"runtime/debug"
 	"sort"
 	"strings"
@@ -39,6 +40,7 @@ import (
 	"google.golang.org/protobuf/encoding/protojson"
 
 	"github.com/smallstep/certificates/authority"
+	"github.com/smallstep/certificates/authority/admin"
 	"github.com/smallstep/certificates/authority/config"
 	"github.com/smallstep/certificates/authority/provisioner"
 	c "verif/harness/common"
@@ -52,7 +54,15 @@ type Op struct {
 	B bool
 }
 
-type Case struct{ Ops []Op }
+// Hosted: the admin database the handlers see is neither the nosql one nor a linked CA, so the
+// sub-routers that are switched off in standalone mode (provisioner policy, ACME account policy) run
+type Case struct {
+	Ops    []Op
+	Hosted bool `json:",omitempty"`
+}
+
+// hostedDB is the nosql admin database under another type
+type hostedDB struct{ admin.DB }
 
 func must[T any](v T, err error) T {
 	if err != nil {
@@ -69,6 +79,14 @@ type env struct {
 	key    crypto.Signer
 	jwkPub []byte
 	dir    string
+	hosted bool
+}
+
+// wrap makes the handlers see the admin database as a hosted one (checkAction tests for *nosql.DB)
+func (e *env) wrap() {
+	if e.hosted {
+		e.srv.Base = admin.NewContext(e.srv.Base, &hostedDB{DB: e.ca.Auth.GetAdminDatabase()})
+	}
 }
 
 func newEnv() *env {
@@ -125,7 +143,7 @@ func (e *env) snapshot() snap {
 		l, next, _ := e.ca.Auth.GetProvisioners(cur, 100)
 		for _, p := range l {
 			js, _ := json.Marshal(p)
-			s.provs[p.GetName()] = p.GetID() + " " + string(js)
+			s.provs[p.GetName()] = p.GetID() + " " + string(js) + polS(p)
 		}
 		if next == "" {
 			break
@@ -151,6 +169,40 @@ func (e *env) snapshot() snap {
 		s.policy = "dns-allow=" + strings.Join(pol.GetX509().GetAllow().GetDns(), ",")
 	}
 	return s
+}
+
+// polS renders the name policy a provisioner carries (not part of its JSON)
+func polS(p provisioner.Interface) string {
+	v := reflect.ValueOf(p)
+	for v.Kind() == reflect.Ptr || v.Kind() == reflect.Interface {
+		if v.IsNil() {
+			return ""
+		}
+		v = v.Elem()
+	}
+	if v.Kind() != reflect.Struct {
+		return ""
+	}
+	f := v.FieldByName("Options")
+	if !f.IsValid() || f.IsNil() {
+		return ""
+	}
+	opts, ok := f.Interface().(*provisioner.Options)
+	if !ok || opts == nil {
+		return ""
+	}
+	x := opts.GetX509Options()
+	if x == nil {
+		return ""
+	}
+	out := ""
+	if a := x.GetAllowedNameOptions(); a != nil {
+		out += " allow-dns=" + strings.Join(a.DNSDomains, ",")
+	}
+	if d := x.GetDeniedNameOptions(); d != nil {
+		out += " deny-dns=" + strings.Join(d.DNSDomains, ",")
+	}
+	return out
 }
 
 func (s snap) String() string {
@@ -187,7 +239,7 @@ func (e *env) stored() (out string, err error) {
 			return "", err
 		}
 		js, _ := json.Marshal(p)
-		s.provs[p.GetName()] = p.GetID() + " " + string(js)
+		s.provs[p.GetName()] = p.GetID() + " " + string(js) + polS(p)
 	}
 	as, err := db.GetAdmins(ctx)
 	if err != nil {
@@ -317,6 +369,21 @@ func (e *env) exec(o Op) (res fixture.Result, applied func(snap) bool) {
 	case "cw":
 		res = e.do("POST", "/admin/provisioners/"+o.A[0]+"/webhooks", whBody(o.A[1], o.V))
 		return res, func(s snap) bool { return strings.Contains(s.provs[o.A[0]], `"name":"`+o.A[1]+`"`) }
+	case "uw":
+		// replace a webhook: the body names it, carries a new URL and no secret / id of its own
+		body := `{"name":"` + o.A[1] + `","url":"https://hooks.verif.test/updated/` + o.A[1] + `","kind":"AUTHORIZING"}`
+		switch o.V {
+		case "http":
+			body = `{"name":"` + o.A[1] + `","url":"http://hooks.verif.test/x","kind":"ENRICHING"}`
+		case "secret":
+			body = `{"name":"` + o.A[1] + `","url":"https://hooks.verif.test/x","kind":"ENRICHING","secret":"b3RoZXI="}`
+		case "otherid":
+			body = `{"name":"` + o.A[1] + `","url":"https://hooks.verif.test/x","kind":"ENRICHING","id":"other"}`
+		case "notjson":
+			body = `{"name": `
+		}
+		res = e.do("PUT", "/admin/provisioners/"+o.A[0]+"/webhooks/"+o.A[1], body)
+		return res, func(s snap) bool { return strings.Contains(s.provs[o.A[0]], "hooks.verif.test/updated/"+o.A[1]) }
 	case "dw":
 		res = e.do("DELETE", "/admin/provisioners/"+o.A[0]+"/webhooks/"+o.A[1], "")
 		return res, func(s snap) bool { return !strings.Contains(s.provs[o.A[0]], `"name":"`+o.A[1]+`"`) }
@@ -369,6 +436,38 @@ func (e *env) exec(o Op) (res fixture.Result, applied func(snap) bool) {
 			res.Status = 200
 		}
 		return res, func(s snap) bool { return s.policy == "" }
+	case "qp", "qu", "qd":
+		// the provisioner-policy sub-router
+		allow := `"step","s0","s1","s2","*.local"`
+		switch o.V {
+		case "lockout":
+			allow = `"elsewhere"`
+		case "badname":
+			allow = `"**.bad..name"`
+		case "other":
+			allow = `"step","s0","s1","s2","more"`
+		}
+		body := `{"x509":{"allow":{"dns":[` + allow + `]}}}`
+		if o.V == "notjson" {
+			body = `{"x509": `
+		}
+		m := map[string]string{"qp": "POST", "qu": "PUT", "qd": "DELETE"}[o.K]
+		if o.K == "qd" {
+			body = ""
+		}
+		res = e.do(m, "/admin/provisioners/"+o.A[0]+"/policy", body)
+		return res, func(s snap) bool {
+			has := strings.Contains(s.provs[o.A[0]], " allow-dns=")
+			return has == (o.K != "qd")
+		}
+	case "eb":
+		// the ACME EAB sub-router: not implemented in this repository whatever the database
+		m := "GET"
+		if o.V == "post" {
+			m = "POST"
+		}
+		res = e.do(m, "/admin/acme/eab/"+o.A[0], `{"reference":"r"}`)
+		return res, func(snap) bool { return true }
 	case "xw":
 		// PROBE, not generated (reachable by -replay only; notes/C16.md "lost webhook"): two different
 		// webhooks created at the same time on one provisioner, both answered 201 - are both there?
@@ -456,6 +555,8 @@ func (e *env) adminID(sub string) string {
 func (k *Case) run() (line, verdict string, accepted int) {
 	e := newEnv()
 	defer e.close()
+	e.hosted = k.Hosted
+	e.wrap()
 	verdict = "ok"
 	var toks []string
 	for i, o := range k.Ops {
@@ -472,6 +573,7 @@ func (k *Case) run() (line, verdict string, accepted int) {
 			}
 			e.ca = ca
 			e.srv = must(e.ca.NewServer())
+			e.wrap()
 			if e.snapshot().String() != before {
 				verdict = fmt.Sprintf("restart-differs@%d", i)
 			}
@@ -520,7 +622,7 @@ func restart(ca *fixture.CA) (out *fixture.CA, err error) {
 // ---------- generator ----------
 
 func genCase(r *c.Rng) *Case {
-	k := &Case{}
+	k := &Case{Hosted: r.Chance(1, 3)}
 	// mostly start from a CA that already has two more provisioners and a second super admin
 	if r.Chance(3, 4) {
 		k.Ops = append(k.Ops, Op{K: "cp", A: []string{"pa"}}, Op{K: "cp", A: []string{"pb"}, V: "goodtemplate"}, Op{K: "ca", A: []string{"s0", "pa"}, B: true})
@@ -536,6 +638,8 @@ func genCase(r *c.Rng) *Case {
 			k.Ops = append(k.Ops, Op{K: "dp", A: []string{c.Pick(r, append(nameP, "jwk"))}})
 		case x < 62:
 			k.Ops = append(k.Ops, Op{K: "cw", A: []string{c.Pick(r, append(nameP, "jwk")), c.Pick(r, whP)}, V: c.Pick(r, whVariants)})
+		case x < 65:
+			k.Ops = append(k.Ops, Op{K: "uw", A: []string{c.Pick(r, append(nameP, "jwk")), c.Pick(r, whP)}, V: c.Pick(r, []string{"", "", "", "http", "secret", "otherid", "notjson"})})
 		case x < 68:
 			k.Ops = append(k.Ops, Op{K: "dw", A: []string{c.Pick(r, append(nameP, "jwk")), c.Pick(r, whP)}})
 		case x < 80:
@@ -545,8 +649,12 @@ func genCase(r *c.Rng) *Case {
 			k.Ops = append(k.Ops, Op{K: "ua", A: []string{c.Pick(r, append(subP, "step"))}, B: r.Chance(1, 2), V: c.Pick(r, []string{"", "", "", "badtype"})})
 		case x < 91:
 			k.Ops = append(k.Ops, Op{K: "da", A: []string{c.Pick(r, append(subP, "step"))}})
-		case x < 96:
+		case x < 95:
 			k.Ops = append(k.Ops, Op{K: c.Pick(r, []string{"pp", "pp", "pu", "pd", "pd"}), V: c.Pick(r, []string{"", "", "", "other", "lockout", "badname", "notjson"})})
+		case x < 98:
+			k.Ops = append(k.Ops, Op{K: c.Pick(r, []string{"qp", "qp", "qu", "qd"}), A: []string{c.Pick(r, append(nameP, "jwk"))}, V: c.Pick(r, []string{"", "", "", "other", "lockout", "badname", "notjson"})})
+		case x < 99:
+			k.Ops = append(k.Ops, Op{K: "eb", A: []string{c.Pick(r, append(nameP, "jwk"))}, V: c.Pick(r, []string{"", "post"})})
 		default:
 			k.Ops = append(k.Ops, Op{K: "rs"})
 		}
@@ -556,10 +664,15 @@ func genCase(r *c.Rng) *Case {
 
 func corner() []*Case {
 	return []*Case{
+		// provisioner policies through their sub-router (hosted database): refused lock-out, accepted, conflict, replaced, removed; and switched off in standalone mode
+		{Hosted: true, Ops: []Op{{K: "cp", A: []string{"pa"}}, {K: "qu", A: []string{"pa"}}, {K: "qd", A: []string{"pa"}}, {K: "qp", A: []string{"jwk"}, V: "lockout"}, {K: "qp", A: []string{"jwk"}, V: "badname"},
+			{K: "qp", A: []string{"jwk"}}, {K: "qp", A: []string{"jwk"}}, {K: "rs"}, {K: "qu", A: []string{"jwk"}, V: "lockout"}, {K: "qu", A: []string{"jwk"}, V: "other"}, {K: "up", A: []string{"jwk", "pb"}, V: "rename"},
+			{K: "qu", A: []string{"pb"}, V: "lockout"}, {K: "qd", A: []string{"pb"}}, {K: "qd", A: []string{"pb"}}, {K: "eb", A: []string{"pb"}}, {K: "rs"}}},
+		{Ops: []Op{{K: "qp", A: []string{"jwk"}}, {K: "qu", A: []string{"jwk"}}, {K: "qd", A: []string{"jwk"}}, {K: "eb", A: []string{"jwk"}}}},
 		{Ops: []Op{{K: "pd"}, {K: "pp", V: "lockout"}, {K: "pp"}, {K: "pp"}, {K: "pu", V: "other"}, {K: "rs"}, {K: "pd"}, {K: "pd"}, {K: "pu"}, {K: "xd"}, {K: "pd"}, {K: "rs"}}},
 		{Ops: []Op{{K: "cp", A: []string{"pa"}}, {K: "cp", A: []string{"pa"}}, {K: "cp", A: []string{"pb"}, V: "min>max"}, {K: "cp", A: []string{"pb"}, V: "badtemplate"},
 			{K: "cp", A: []string{"pb"}, V: "goodtemplate"}, {K: "rs"}, {K: "up", A: []string{"pb", "pc"}, V: "rename"}, {K: "up", A: []string{"pc", "pc"}, V: "changeid"},
-			{K: "cw", A: []string{"pc", "w0"}}, {K: "cw", A: []string{"pc", "w0"}}, {K: "cw", A: []string{"pc", "w1"}, V: "http"}, {K: "rs"}, {K: "dw", A: []string{"pc", "w0"}},
+			{K: "cw", A: []string{"pc", "w0"}}, {K: "cw", A: []string{"pc", "w0"}}, {K: "cw", A: []string{"pc", "w1"}, V: "http"}, {K: "uw", A: []string{"pc", "w0"}}, {K: "uw", A: []string{"pc", "w0"}, V: "secret"}, {K: "uw", A: []string{"pc", "w1"}}, {K: "rs"}, {K: "dw", A: []string{"pc", "w0"}}, {K: "dw", A: []string{"pc", "w0"}},
 			{K: "dp", A: []string{"pc"}}, {K: "dp", A: []string{"jwk"}}}},
 		{Ops: []Op{{K: "cp", A: []string{"pa"}}, {K: "ca", A: []string{"s0", "pa"}, B: true}, {K: "ca", A: []string{"s0", "pa"}, B: false}, {K: "up", A: []string{"pa", "pb"}, V: "rename"},
 			{K: "ua", A: []string{"s0"}, B: false}, {K: "da", A: []string{"step"}}, {K: "ua", A: []string{"step"}, B: false}, {K: "da", A: []string{"s0"}}, {K: "rs"}, {K: "dp", A: []string{"pb"}}}},
